@@ -260,6 +260,89 @@ Example C11_gaps_example :
 Proof. vm_compute. reflexivity. Qed.
 Print Assumptions C11_gaps_example.
 
+(* ---- geometry of a multi-frame image: Image.get_volume_geometry / Segmentation.get_volume_geometry ---- *)
+(* om / od: allow_missing_positions / allow_duplicate_positions as passed by the caller (None = not passed:
+   eff_missing / eff_dups give the default of the class, seg = Segmentation).  The geometry is reported
+   exactly when get_volume_positions accepts the frame positions under the declarations THE CALLER made;
+   slices = largest index + 1, origin = position of the first frame with index 0. *)
+Theorem C11_geometry_follows_declarations : forall ps rowc colc hint rtol atol seg om od g,
+  multiframe_geometry ps rowc colc hint rtol atol seg om od = Ok (Some g) <->
+  exists sp idx j0,
+    get_volume_positions ps rowc colc (vol_opts rtol atol (eff_missing seg om) (eff_dups od) hint)
+      = Ok (Some (sp, idx)) /\
+    zindex 0%Z idx = Some j0 /\
+    g = mkGeom (zmax_list idx + 1)%Z sp (nthV ps j0) (cross colc rowc).
+Proof. exact geometry_sound. Qed.
+Print Assumptions C11_geometry_follows_declarations.
+
+Theorem C11_geometry_none_iff : forall ps rowc colc hint rtol atol seg om od,
+  multiframe_geometry ps rowc colc hint rtol atol seg om od = Ok None <->
+  (get_volume_positions ps rowc colc (vol_opts rtol atol (eff_missing seg om) (eff_dups od) hint) = Ok None \/
+   get_volume_positions ps rowc colc (vol_opts rtol atol (eff_missing seg om) (eff_dups od) hint)
+     = Err "RuntimeError"%string).
+Proof. exact geometry_none_iff. Qed.
+Print Assumptions C11_geometry_none_iff.
+
+(* dups_and_gaps: duplicates declared as not allowed -> frames sharing a position are never accepted,
+   whatever is declared about gaps (om is universally quantified) *)
+Theorem C11_geometry_duplicates_refused : forall ps rowc colc hint rtol atol seg om od g,
+  eff_dups od = false -> (2 <= length ps)%nat ->
+  (length (lexuniq (map vred ps)) < length ps)%nat ->
+  multiframe_geometry ps rowc colc hint rtol atol seg om od <> Ok (Some g).
+Proof. exact geometry_duplicates_refused. Qed.
+Print Assumptions C11_geometry_duplicates_refused.
+
+(* regular_accepted: frames of a regular stack in ANY order, several frames per plane iff duplicates are
+   allowed (declared, or by default: od = None), gaps not allowed (Image default, or declared): M slices,
+   spacing s, origin = position of a rank-0 frame, slice axis = cross colc rowc *)
+Theorem C11_geometry_regular_accepted : forall ps rowc colc rtol atol seg om od nv rt at_ a s r M,
+  eff_missing seg om = false ->
+  tolerances rtol atol = Ok (rt, at_) -> 0 <= rt -> 0 <= at_ ->
+  normal_vector rowc colc DirD DirR true = Ok nv ->
+  regular_stack nv a s r M (map vred ps) ->
+  (eff_dups od = true \/ length ps = M) ->
+  exists g, multiframe_geometry ps rowc colc None rtol atol seg om od = Ok (Some g) /\
+    g_nsl g = Z.of_nat M /\ g_spacing g == s /\ In (g_origin g) ps /\ r (vred (g_origin g)) = 0%nat /\
+    g_normal g = cross colc rowc.
+Proof. exact geometry_regular_accepted. Qed.
+Print Assumptions C11_geometry_regular_accepted.
+
+Theorem C11_geometry_order_invariant : forall ps ps2 rowc colc rtol atol seg om od nv rt at_ a s r M,
+  eff_missing seg om = false ->
+  tolerances rtol atol = Ok (rt, at_) -> 0 <= rt -> 0 <= at_ ->
+  normal_vector rowc colc DirD DirR true = Ok nv ->
+  regular_stack nv a s r M (map vred ps) ->
+  (eff_dups od = true \/ length ps = M) ->
+  Permutation ps ps2 ->
+  exists g g2,
+    multiframe_geometry ps rowc colc None rtol atol seg om od = Ok (Some g) /\
+    multiframe_geometry ps2 rowc colc None rtol atol seg om od = Ok (Some g2) /\
+    g_nsl g = g_nsl g2 /\ g_spacing g == g_spacing g2 /\
+    veqb (vred (g_origin g)) (vred (g_origin g2)) = true /\ g_normal g = g_normal g2.
+Proof. exact geometry_order_invariant. Qed.
+Print Assumptions C11_geometry_order_invariant.
+
+(* non-vacuity: ex_stack (three planes, one of them holding two frames, passed out of order) satisfies the
+   hypotheses for the volume convention; defaults of Image accept it, duplicates=False refuses it with and
+   without gaps allowed, the Segmentation defaults accept it; with a gap only allow_missing accepts *)
+Example C11_geometry_nonvacuous :
+  let rowc := V3 0 0 1 in let colc := V3 (-4#5) (3#5) 0 in
+  normal_vector rowc colc DirD DirR true = Ok ex_nv /\
+  (length (lexuniq (map vred ex_stack)) < length ex_stack)%nat /\
+  mismatches
+    [run_mf_geometry ex_stack rowc colc None None None false None None;
+     run_mf_geometry ex_stack rowc colc None None None false None (Some false);
+     run_mf_geometry ex_stack rowc colc None None None false (Some true) (Some false);
+     run_mf_geometry ex_stack rowc colc None None None true None None;
+     run_mf_geometry (V3 (12#5) (16#5) 0 :: ex_stack) rowc colc None None None false None None;
+     run_mf_geometry (V3 (12#5) (16#5) 0 :: ex_stack) rowc colc None None None false (Some true) None;
+     run_mf_geometry ex_stack rowc colc (Some 2) None None false None None]
+    [VL [VZ 3; VQ 1; vvec (V3 0 0 0); vvec (V3 (3#5) (4#5) 0)]; VNone; VNone;
+     VL [VZ 3; VQ 1; vvec (V3 0 0 0); vvec (V3 (3#5) (4#5) 0)]; VNone;
+     VL [VZ 5; VQ 1; vvec (V3 0 0 0); vvec (V3 (3#5) (4#5) 0)]; VNone] = [].
+Proof. cbv zeta. repeat split; vm_compute; reflexivity. Qed.
+Print Assumptions C11_geometry_nonvacuous.
+
 (* ---- sorting: the sort index is a permutation that orders the planes along the positive normal ------- *)
 Theorem C11_sorted_distances : forall ds,
   Sorted Qle (map (nthQ ds) (argsort ds)) /\ Permutation (map (nthQ ds) (argsort ds)) ds /\
